@@ -199,6 +199,31 @@ def hexByte (n : Nat) : String :=
   let d := "0123456789abcdef".toList
   String.ofList [d.getD (n / 16) '0', d.getD (n % 16) '0']
 
+def showBundle (b : List Nat) : String := String.join (b.map hexByte) ++ (if bundleDeletable b then " 1" else " 0")
+
+/-- `B xopen i lo hi auth ts [nt]` (family xbun): open_bundled_position through the entrypoint -/
+def bundleOpen (bm : List Nat) (i lo hi auth ts nt : String) : List Nat × String :=
+  let show_ := showBundle
+    match i.toNat?, lo.toInt?, hi.toInt?, auth.toNat?, ts.toNat? with
+    | some i, some lo, some hi, some auth, some ts =>
+      if bm.isEmpty then (bm, "err Deleted")
+      else if auth = 2 then (bm, "err AccountNotSigner " ++ show_ bm)
+      else if auth = 5 then (bm, "err ConstraintSeeds " ++ show_ bm)   -- the address of another bundle index
+      else if i < 256 && bundleBit bm i then (bm, "err AccountAlreadyInitialized " ++ show_ bm)
+      else if auth = 4 || auth = 6 then (bm, "err ConstraintRaw " ++ show_ bm)   -- the token of another bundle; an EMPTY account of the bundle mint
+      else if nt == "1" then (bm, "err PositionWithTokenExtensionsRequired " ++ show_ bm)   -- the pool requires non-transferable positions
+      else if auth = 1 then (bm, "err MissingOrInvalidDelegate " ++ show_ bm)
+      else match bundleUpdate bm i true with
+        | .error e => (bm, "err " ++ e.name ++ " " ++ show_ bm)
+        | .ok b =>
+          match resolveOneSided lo hi ts 18446744073709551616 with
+          | .error e => (bm, "err " ++ e.name ++ " " ++ show_ bm)
+          | .ok (l, u) =>
+            match validateTickRange ts l u with
+            | .error e => (bm, "err " ++ e.name ++ " " ++ show_ bm)
+            | .ok _ => (b, s!"ok {l} {u} " ++ show_ b)
+    | _, _, _, _, _ => (bm, "bad-op")
+
 def bundleLine (bm : List Nat) (toks : List String) : List Nat × String :=
   let show_ (b : List Nat) := String.join (b.map hexByte) ++ (if bundleDeletable b then " 1" else " 0")
   match toks with
@@ -218,25 +243,8 @@ def bundleLine (bm : List Nat) (toks : List String) : List Nat × String :=
   -- instruction level (family xbun): `bm = []` stands for a deleted bundle; the pool has price 1.0
   | ["xnew", _ts] => (List.replicate 32 0, "ok " ++ show_ (List.replicate 32 0))
   | ["xnewm", _ts] => (List.replicate 32 0, "ok " ++ show_ (List.replicate 32 0))   -- …_with_metadata: same bundle
-  | ["xopen", i, lo, hi, auth, ts] =>
-    match i.toNat?, lo.toInt?, hi.toInt?, auth.toNat?, ts.toNat? with
-    | some i, some lo, some hi, some auth, some ts =>
-      if bm.isEmpty then (bm, "err Deleted")
-      else if auth = 2 then (bm, "err AccountNotSigner " ++ show_ bm)
-      else if auth = 5 then (bm, "err ConstraintSeeds " ++ show_ bm)   -- the address of another bundle index
-      else if i < 256 && bundleBit bm i then (bm, "err AccountAlreadyInitialized " ++ show_ bm)
-      else if auth = 4 || auth = 6 then (bm, "err ConstraintRaw " ++ show_ bm)   -- the token of another bundle; an EMPTY account of the bundle mint
-      else if auth = 1 then (bm, "err MissingOrInvalidDelegate " ++ show_ bm)
-      else match bundleUpdate bm i true with
-        | .error e => (bm, "err " ++ e.name ++ " " ++ show_ bm)
-        | .ok b =>
-          match resolveOneSided lo hi ts 18446744073709551616 with
-          | .error e => (bm, "err " ++ e.name ++ " " ++ show_ bm)
-          | .ok (l, u) =>
-            match validateTickRange ts l u with
-            | .error e => (bm, "err " ++ e.name ++ " " ++ show_ bm)
-            | .ok _ => (b, s!"ok {l} {u} " ++ show_ b)
-    | _, _, _, _, _ => (bm, "bad-op")
+  | ["xopen", i, lo, hi, auth, ts] => bundleOpen bm i lo hi auth ts "0"
+  | ["xopen", i, lo, hi, auth, ts, nt] => bundleOpen bm i lo hi auth ts nt
   | ["xclose", i, auth, dirty] =>
     match i.toNat?, auth.toNat?, dirty.toNat? with
     | some i, some auth, some dirty =>
